@@ -117,6 +117,8 @@ func init() {
 			{ID: "R07.1", Title: "no error is dropped in the built-ins (tested, returned or handed on, on every path)", Floor: 600, Run: ruleR071},
 			{ID: "R07.2", Title: "stores into fields of a value receiver are not lost (error sinks are shared)", Floor: 0, Run: ruleR072},
 			{ID: "R07.3", Title: "declared arity covers every stack slot the implementation reads", Floor: 121, Run: ruleR073},
+			{ID: "R13.1", Title: "key-domain agreement of the map storages (see C13)", Floor: 9, Run: ruleR131},
+			{ID: "R09.1", Title: "list backing slices are never written in place (see C09)", Floor: 36, Run: ruleR091},
 		},
 	})
 	register(&Property{
@@ -261,6 +263,43 @@ func init() {
 			{ID: "R18.3", Title: "XML escaper: < > & ' \" always become entities (abstract evaluation per code point)", Floor: 1, Run: ruleR183},
 			{ID: "R18.4", Title: "elements are balanced: every function changes the depth by exactly its role on non-failing paths", Floor: 15, Run: ruleR184},
 			{ID: "R18.5", Title: "ToHtml recovers panics into its error result", Floor: 1, Run: ruleR185},
+		},
+	})
+	register(&Property{
+		ID:        "C19",
+		Technique: "flag/implementation witness tables over the example configurations, symbolic index check of the operator-table insertion, operand-conservation check of the optimizer's regrouping, abstract evaluation of the tokenizer's implicit-multiplication conditions over all (previous token, blank) combinations, plus the generic-body rules of C01-C03 (frame slots, guarded folding, purity propagation, precedence climbing)",
+		Explanation: "Decides the code-shape clauses the bounded-exhaustive statement rests on, for every value type at once because the generic bodies are analysed uninstantiated: the example configurations declare no commutative/pure flag that the implementation contradicts; AddOpBehind inserts directly behind the reference operator (registration order is priority); the optimizer's regrouping keeps the variable operand and folds only the operand proven constant; the tokenizer inserts the implicit '*' exactly for the documented (previous token, blank) combinations; " +
+			"the generic generator, optimizer and parser rules of C01, C02 and C03 hold. Not decided: the computed values themselves - no expression is evaluated; equality with the operators' own definitions for every expression is a run-time quantity.",
+		Rules: []*Rule{
+			{ID: "R19.4", Title: "example configurations: declared flags vs implementation (R02.4 on example/bool.go, example/minimal.go)", Floor: 8, Run: ruleR024(func(p *packages.Package) bool {
+				return strings.HasSuffix(p.PkgPath, "/example") && !strings.HasSuffix(p.PkgPath, "value/example")
+			})},
+			{ID: "R19.1", Title: "regrouping folds the operand proven constant and keeps the other one", Floor: 2, Run: ruleR191},
+			{ID: "R19.2", Title: "AddOpBehind inserts directly behind the reference operator", Floor: 1, Run: ruleR192},
+			{ID: "R19.3", Title: "implicit multiplication is inserted exactly for the documented token pairs", Floor: 3, Run: ruleR193},
+			{ID: "R01.1", Title: "frame-slot agreement of the generic generator (see C01)", Floor: 39, Run: ruleR011},
+			{ID: "R02.1", Title: "purity-guarded folding (see C02)", Floor: 6, Run: ruleR021},
+			{ID: "R02.2", Title: "regroup guard (see C02)", Floor: 2, Run: ruleR022},
+			{ID: "R02.3", Title: "purity propagation (see C02)", Floor: 15, Run: ruleR023},
+			{ID: "R03.1", Title: "one recursion level per operator (see C03)", Floor: 3, Run: ruleR031},
+			{ID: "R03.2", Title: "left associative accumulation loop (see C03)", Floor: 7, Run: ruleR032},
+			{ID: "R03.3", Title: "prefix operators (see C03)", Floor: 3, Run: ruleR033},
+			{ID: "R03.4", Title: "EOF test dominates every successful return of Parse (see C03)", Floor: 1, Run: ruleR034},
+		},
+	})
+	register(&Property{
+		ID:        "C20",
+		Technique: "polynomial normal forms of the index and description formulas compared with the property's bin definition, guard dominance of the float-to-int conversion (clamp before convert), index-origin check of every bins access, straight-line accumulation check, allocation check of the accumulator rows, length-agreement check of the collectBinning loops, aliasing rule R09.1",
+		Explanation: "Decides the structural side of mass conservation: getIndex computes floor((x-start)/size)+1 and converts to int only under 0 <= f < bins established in the float domain, returning the two outer bins otherwise; getDescr(i) describes [start+(i-1)*size, start+i*size) with the open side for the outer bins, the interval getIndex maps to i; every access to the bins uses a getIndex result of the matching axis, whose size is the length of that slice dimension; Add performs exactly one '+=' of the summand on every call; " +
+			"rows are separate allocations; collectBinning accumulates element-wise only under equal lengths and never into a slice handed out by a list; negative counts are rejected before make. Not decided: floating point rounding of the index formula at bin edges, the sums themselves, additivity for every split (a run-time relation).",
+		Rules: []*Rule{
+			{ID: "R20.1", Title: "getIndex: index formula, clamp before convert, results are valid bins", Floor: 3, Run: ruleR201},
+			{ID: "R20.6", Title: "getDescr(i) describes the interval getIndex maps to i", Floor: 3, Run: ruleR206},
+			{ID: "R20.2", Title: "bins are indexed by getIndex results of the matching axis; Add accumulates exactly once; rows are separate allocations", Floor: 12, Run: ruleR202},
+			{ID: "R20.3", Title: "collectBinning accumulates element-wise under equal lengths", Floor: 2, Run: ruleR203},
+			{ID: "R05.4", Title: "counts are range checked before make (see C05)", Floor: 4, Run: ruleR054},
+			{ID: "R09.1", Title: "list backing slices are never written in place (see C09)", Floor: 36, Run: ruleR091},
+			{ID: "R13.1", Title: "key-domain agreement of the map storages, incl. the bin description (see C13)", Floor: 9, Run: ruleR131},
 		},
 	})
 }
